@@ -14,6 +14,13 @@ focus: MapFocus / ForFocus / PredFocus / QuantFocus put a consumer (exists empty
 inner filter or map, which sets its own focus and may be abandoned early, next to a reader of the OUTER
 focus (. position() last()); the definitional value ignores the consumer, the implementation has to
 restore the focus after an abandoned generator and must evaluate every binding on its own context.
+Group "nodes" (universe un: two sibling elements and an attribute of <r><n k=".."/>..</r>, ids in document
+order): NodeMap S ! BODY and NodeFor `for $x in S return $x/BODY` (BODY in . (., .) .. @k ../n) concatenate
+in the order of S and keep duplicates, NodePath S/BODY is the same set in document order (LawNodes).
+CALL SYNTAX dimension of the binding: every function action is also called as fn:name(..), as EQName
+Q{uri}name(..), through a named reference name#n(..), as a partial application name(?, ..)(S) and with
+the arrow operator S => name(..) - same expected value; configuration falsy-uf (items 0, 0.0, '', false(),
+1, -1) evaluates ALL syntaxes on every edge and must produce a falsy single result for every function.
 ForDep / ForDep3 / QuantDep are for / some / every with 2 and 3 clauses whose inner ranges DEPEND on
 the outer variable (1 to $x - 1, $x to 2, S[. lt $x]; empty for the first / a middle / the last outer
 value), in the multi-clause and in the nested spelling (law: several clauses = nested = tuple stream).
@@ -71,6 +78,8 @@ TIERS = {
         ('agg-u9', dict(MaxDepth=2, MaxLen=4, InitLen=2, UniverseName='u9', GridName='full', Groups={'agg'})),
         ('focus-u3', dict(MaxDepth=2, MaxLen=4, InitLen=3, UniverseName='u3', GridName='full', Groups={'focus'})),
         ('eq-ux', dict(MaxDepth=2, MaxLen=4, InitLen=2, UniverseName='ux', GridName='full', Groups={'agg', 'iter'})),
+        ('nodes-un', dict(MaxDepth=2, MaxLen=4, InitLen=3, UniverseName='un', GridName='small', Groups={'nodes', 'cat'})),
+        ('falsy-uf', dict(MaxDepth=2, MaxLen=4, InitLen=2, UniverseName='uf', GridName='small', Groups={'agg', 'pos'})),
         ('comp-u4-d2', dict(MaxDepth=3, MaxLen=4, InitLen=2, UniverseName='u4', GridName='small', Groups=ALL_GROUPS)),
     ],
     'thorough': [
@@ -80,6 +89,9 @@ TIERS = {
                          Groups={'iter', 'agg', 'cat'})),
         ('comp-u4-d2', dict(MaxDepth=3, MaxLen=4, InitLen=2, UniverseName='u4', GridName='small', Groups=ALL_GROUPS)),
         ('eq-ux', dict(MaxDepth=2, MaxLen=4, InitLen=2, UniverseName='ux', GridName='full', Groups={'agg', 'iter'})),
+        ('nodes-un-d2', dict(MaxDepth=3, MaxLen=4, InitLen=2, UniverseName='un', GridName='small',
+                             Groups={'nodes', 'pos', 'cat'})),
+        ('falsy-uf', dict(MaxDepth=2, MaxLen=4, InitLen=3, UniverseName='uf', GridName='small', Groups={'agg', 'pos'})),
         ('eq-ux-3', dict(MaxDepth=2, MaxLen=4, InitLen=3, UniverseName='ux', GridName='full', Groups={'agg'})),
         ('focus-u4', dict(MaxDepth=2, MaxLen=4, InitLen=3, UniverseName='u4', GridName='full', Groups={'focus'})),
         ('focus-u3-d2', dict(MaxDepth=3, MaxLen=3, InitLen=2, UniverseName='u3', GridName='small',
@@ -138,7 +150,11 @@ def item_text(it, style: str) -> str:
         s = ''.join(chr(c) for c in it['s']).replace("'", "''")
         return f"xs:string('{s}')" if style == 'ctor' else f"'{s}'"
     if t == 'node':
-        return f'(//n)[{it["q"][0]}]' if style == 'ctor' else f'/r/n[{it["q"][0]}]'
+        d = it['q'][0]
+        if d == 1:
+            return '(/*)' if style == 'ctor' else '/r'
+        el = f'(//n)[{d // 2}]' if style == 'ctor' else f'/r/n[{d // 2}]'
+        return el if d % 2 == 0 else el + '/@k'
     if t == 'bool':
         b = it['q'][0] == 1
         if style == 'ctor':
@@ -187,15 +203,43 @@ def consumer_text(F: str, E: str, v: str) -> str:
 
 def action_versions(action: str, args: tuple):
     vs = ACTION_VERSIONS.get(action, ALLV)
+    if action == 'NodeMap':
+        return V30
     if action in ('MapFocus', 'ForFocus', 'PredFocus', 'QuantFocus'):
         if action == 'MapFocus' or 'head' in args[:2] or any(isinstance(a, str) and a.startswith('!') for a in args):
             vs = V30
     return vs
 
 
-def expr_for(X: str, action: str, args: tuple, n: int, sfx: str) -> str:
+FN_URI = 'http://www.w3.org/2005/xpath-functions'
+FSTYLES = {'fn': ALLV, 'eqname': V30, 'ref': V30, 'partial': V30, 'arrow': frozenset(('3.1',))}
+FUNCTION_ACTIONS = {'Subseq2', 'Subseq3', 'Remove', 'InsertBefore', 'HeadOf', 'TailOf', 'Reverse', 'Count', 'Empty',
+                    'Exists', 'DistinctValues', 'ZeroOrOne', 'OneOrMore', 'ExactlyOne', 'Sum', 'SumZero', 'Avg', 'Min',
+                    'Max', 'IndexOf', 'StringJoin', 'StringJoinAny', 'StringJoinTypeErr'}
+
+
+def fcall(name: str, X: str, rest: list, fstyle: str) -> str:
+    """the call name(X, rest...) in one of the call syntaxes of XPath; the value must not depend on it"""
+    a = ', '.join([X] + rest)
+    if fstyle == 'plain':
+        return f'{name}({a})'
+    if fstyle == 'fn':
+        return f'fn:{name}({a})'
+    if fstyle == 'eqname':
+        return f'Q{{{FN_URI}}}{name}({a})'
+    if fstyle == 'ref':                       # named function reference + dynamic call
+        return f'{name}#{1 + len(rest)}({a})'
+    if fstyle == 'partial':                   # every argument fixed but the source sequence
+        return f'{name}({", ".join(["?"] + rest)})({X})'
+    if fstyle == 'arrow':
+        return f'{X} => {name}({", ".join(rest)})'
+    raise tla.MachineryError(f'unknown call style {fstyle}')
+
+
+def expr_for(X: str, action: str, args: tuple, n: int, sfx: str, fstyle: str = 'plain') -> str:
     """XPath text of `action(args)` applied to the source expression X (a parenthesised primary);
-    n = length of the source sequence (tokens len / len+1); sfx = loop-variable suffix."""
+    n = length of the source sequence (tokens len / len+1); sfx = loop-variable suffix;
+    fstyle = call syntax of the function of a FUNCTION_ACTIONS action."""
     x, y, i = f'$x{sfx}', f'$y{sfx}', f'$i{sfx}'
     T = lambda k: tok_text(args[k], n)      # noqa: E731
     if action == 'PredNum':
@@ -206,21 +250,21 @@ def expr_for(X: str, action: str, args: tuple, n: int, sfx: str) -> str:
         return {'last': f'{X}[last()]', 'last-1': f'{X}[last() - 1]', 'pos=last': f'{X}[position() = last()]',
                 'pos<last': f'{X}[position() lt last()]'}[args[0]]
     if action == 'Subseq2':
-        return f'subsequence({X}, {T(0)})'
+        return fcall('subsequence', X, [T(0)], fstyle)
     if action == 'Subseq3':
-        return f'subsequence({X}, {T(0)}, {T(1)})'
+        return fcall('subsequence', X, [T(0), T(1)], fstyle)
     if action == 'SubseqPred':
         return f'{X}[round({T(0)}) le position() and position() lt round({T(0)}) + round({T(1)})]'
     if action == 'Remove':
-        return f'remove({X}, {T(0)})'
+        return fcall('remove', X, [T(0)], fstyle)
     if action == 'InsertBefore':
-        return f'insert-before({X}, {T(0)}, {seq_text(args[1])})'
+        return fcall('insert-before', X, [T(0), seq_text(args[1])], fstyle)
     if action == 'HeadOf':
-        return f'head({X})'
+        return fcall('head', X, [], fstyle)
     if action == 'TailOf':
-        return f'tail({X})'
+        return fcall('tail', X, [], fstyle)
     if action == 'Reverse':
-        return f'reverse({X})'
+        return fcall('reverse', X, [], fstyle)
     if action == 'ForIndex':
         return {'fwd': f'for {i} in 1 to count({X}) return {X}[{i}]',
                 'rev': f'for {i} in reverse(1 to count({X})) return {X}[{i}]',
@@ -280,14 +324,14 @@ def expr_for(X: str, action: str, args: tuple, n: int, sfx: str) -> str:
               'ZeroOrOne': 'zero-or-one', 'OneOrMore': 'one-or-more', 'ExactlyOne': 'exactly-one',
               'Sum': 'sum', 'Avg': 'avg', 'Min': 'min', 'Max': 'max'}
     if action in simple:
-        return f'{simple[action]}({X})'
+        return fcall(simple[action], X, [], fstyle)
     if action == 'IndexOf':
-        return f'index-of({X}, {T(0)})'
+        return fcall('index-of', X, [T(0)], fstyle)
     if action == 'SumZero':
-        return f'sum({X}, {T(0)})'
+        return fcall('sum', X, [T(0)], fstyle)
     if action in ('StringJoin', 'StringJoinAny', 'StringJoinTypeErr'):
         sep = ''.join(chr(c) for c in args[0]) if args else '-'
-        return f"string-join({X}, '{sep}')"
+        return fcall('string-join', X, [f"'{sep}'"], fstyle)
     if action in ('MapFocus', 'ForFocus', 'PredFocus'):
         F, inner, R = args[0], args[1], args[2]
         E = f'(4, 5, 6){inner}' if inner.startswith('[') else f'((4, 5, 6) {inner})'
@@ -301,6 +345,12 @@ def expr_for(X: str, action: str, args: tuple, n: int, sfx: str) -> str:
         q, F = args[0], args[1]
         C = consumer_text(F, f'(. + 1, . + 2)[. lt {T(2)}]', f'$v{sfx}')
         return f'{q} {x} in {X} satisfies {C}'
+    if action == 'NodeMap':
+        return f'{X} ! {args[0]}'
+    if action == 'NodeFor':
+        return f'for {x} in {X} return {x}/{args[0]}'
+    if action == 'NodePath':
+        return f'{X}/{args[0]}'
     if action == 'Comma':
         t = seq_text(args[1])
         return f'({X}, {t})' if args[0] == 'after' else f'({t}, {X})'
@@ -332,7 +382,9 @@ def _on_alarm(signum, frame):
 
 
 _root = None
-NODE_XML = '<r><n>5</n><n>6</n><n>7</n></r>'
+NODE_XML = '<r><n k="x">5</n><n k="y">6</n><n k="z">7</n></r>'     # document-order ids: r=1, n[i]=2i, n[i]/@k=2i+1
+ATTR_VALUES = 'xyz'                                                    # unique: identify the attribute nodes in results
+NODE_TEXT = re.compile(r'/r\b|\(//n\)|\(/\*\)')
 
 
 def root():
@@ -346,10 +398,11 @@ def root():
 def project(r):
     from elementpath.datatypes import Float
     if hasattr(r, 'tag') and _root is not None:
-        kids = list(_root)
-        for i, e in enumerate(kids):
+        if r is _root:
+            return ('node', Fraction(1))
+        for i, e in enumerate(list(_root)):
             if e is r:
-                return ('node', Fraction(i + 1))
+                return ('node', Fraction(2 * (i + 1)))
         return ('other', 'element:' + str(r.tag))
     if isinstance(r, bool):
         return ('bool', Fraction(int(r)))
@@ -388,7 +441,7 @@ def _evaluate_once(text: str, version: str, timeout: int):
         signal.signal(signal.SIGALRM, _on_alarm)
         signal.alarm(timeout)
     try:
-        if '/r/n[' in text or '(//n)[' in text:
+        if NODE_TEXT.search(text):
             r = elementpath.select(root(), text, parser=parsers()[version])     # sequences with nodes
         else:
             r = elementpath.select(None, text, item=1, parser=parsers()[version])
@@ -411,6 +464,9 @@ def _evaluate_once(text: str, version: str, timeout: int):
 def item_mismatch(exp, obs, relax_exact: bool = False):
     """None if the observed projected item conforms to the expected abstract item."""
     t = exp['t']
+    if t == 'node' and exp['q'][0] % 2 == 1 and exp['q'][0] > 1:
+        # attribute nodes come back as their (unique) string values
+        return None if tuple(obs[:2]) == ('str', (ord(ATTR_VALUES[(exp['q'][0] - 3) // 2]),)) else 'value'
     if obs[0] != t:
         if relax_exact and t in ('int', 'dec') and obs[0] in ('int', 'dec') and obs[1] == frac(exp):
             return None
@@ -542,13 +598,13 @@ def type_sig(items) -> str:
     return '+'.join(sorted({x['t'] if x['k'] == 'fin' else 'nan' if x['k'] == 'nan' else 'inf' for x in items})) or 'empty'
 
 
-def features(src, action, args, dst, outcome, version, spelling, level):
+def features(src, action, args, dst, outcome, version, spelling, level, fstyle='plain'):
     items = list(src)
     argtypes = set()
     for a in args:
         if isinstance(a, tuple):
             argtypes |= {x['t'] for x in a if isinstance(x, dict)}
-    feat = dict(action=action, outcome=outcome, parser=version, spelling=spelling, level=level,
+    feat = dict(action=action, outcome=outcome, parser=version, spelling=spelling, level=level, fstyle=fstyle,
                 src_len=len(items), src_types=type_sig(items),
                 has_bool=any(x['t'] == 'bool' for x in items) or 'bool' in argtypes
                 or any(a == 'true()' for a in args),
@@ -560,6 +616,7 @@ def features(src, action, args, dst, outcome, version, spelling, level):
                 or any(a in ('0.1', '0.1e0', '0.3e0') for a in args if isinstance(a, str)),
                 has_nan=any(x['k'] == 'nan' for x in items),
                 has_str=any(x['t'] == 'str' for x in items),
+                src_has_attr=any(x['t'] == 'node' and x['q'][0] > 1 and x['q'][0] % 2 == 1 for x in items),
                 expected_kind=('err:' + dst['code']) if dst['k'] == 'err' else dst['k'])
     for i, a in enumerate(args):
         feat[f'a{i + 1}'] = a if isinstance(a, str) else seq_text(a) if (isinstance(a, tuple) and all(isinstance(x, dict) for x in a)) \
@@ -618,6 +675,29 @@ def worker(job):
                         fails[key] = [feat, 1, dict(expr=expr, parser=v, action=action), dst, obs]
                     else:
                         ent[1] += 1
+        if action in FUNCTION_ACTIONS:
+            # the same call in the other call syntaxes (literal source): the value must be identical
+            kind, text, sfx, versions = spell[s][0]
+            styles = sorted(FSTYLES)
+            if _G['fstyles'] != 'all':
+                styles = [styles[(rot >> 3) % len(styles)]]
+            for fstyle in styles:
+                vs = [v for v in VERSIONS if v in allowed and v in versions and v in FSTYLES[fstyle]]
+                if not vs:
+                    continue
+                v = vs[rot % len(vs)] if _G['fstyles'] != 'all' else vs[-1]
+                expr = expr_for(text, action, args, n, sfx, fstyle)
+                obs = evaluate(expr, v)
+                n_eval += 1
+                out = compare(dst, obs, action, v)
+                if out is not None:
+                    feat = features(src, action, args, dst, out, v, kind, level[s], fstyle)
+                    key = tuple(sorted((k, str(x)) for k, x in feat.items()))
+                    ent = fails.get(key)
+                    if ent is None:
+                        fails[key] = [feat, 1, dict(expr=expr, parser=v, action=action), dst, obs]
+                    else:
+                        ent[1] += 1
         ok_flags.append(edge_ok)
     return lo, n_eval, list(fails.values()), oracle[:5], len(oracle), ok_flags, skipped_nested
 
@@ -667,7 +747,8 @@ def replay_graph(chk: core.Check, name: str, g: tla.Graph, nested_k: int):
                 items = states[s]['st']['s']
                 spell[s] = [('lit', seq_text(items, 'lit'), str(lv), ALLV)]
                 totals['unreached'] += 1
-        _G.update(states=states, edges=edges, spell=spell, level=level, quick=(chk.tier == 'quick'))
+        _G.update(states=states, edges=edges, spell=spell, level=level, quick=(chk.tier == 'quick'),
+                  fstyles=('all' if name.startswith('falsy') or chk.tier != 'quick' else 'rot'))
         step = max(50, min(2000, len(edges) // 64 + 1))
         jobs = [(i, min(i + step, len(edges))) for i in range(0, len(edges), step)]
         results = core.pool_map(worker, jobs)
@@ -720,6 +801,22 @@ def replay_graph(chk: core.Check, name: str, g: tla.Graph, nested_k: int):
                 if t2 != t1:
                     sp.append(('nested-samevar', t2, '', frozenset(vs)))
             spell[d] = sp
+    if name.startswith('falsy'):
+        # anti-vacuity of the call-syntax dimension: every function must return a single FALSY item somewhere
+        def falsy(it):
+            return (it['t'] in NUMT and it['k'] == 'fin' and it['q'][0] == 0) or (it['t'] == 'str' and not it['s']) \
+                or (it['t'] == 'bool' and it['q'][0] == 0)
+        cnt: dict = {}
+        for s_, d_, a_, args_ in g.edges:
+            if a_ in FUNCTION_ACTIONS:
+                dst_ = states[d_]['st']
+                cnt.setdefault(a_, 0)
+                if dst_['k'] == 'seq' and len(dst_['s']) == 1 and falsy(dst_['s'][0]):
+                    cnt[a_] += 1
+        chk.coverage['falsy_single_results_by_function'] = cnt
+        missing = sorted(a_ for a_, c_ in cnt.items() if not c_ and a_ not in ('IndexOf', 'StringJoinAny', 'StringJoinTypeErr'))
+        if missing:
+            raise tla.MachineryError(f'no falsy single result (0, 0.0, "", false()) for {missing} in {name} (vacuous)')
     chk.add('transitions', totals['edges'])
     chk.add('traces_validated_against_impl', totals['edges'])
     chk.add('evaluations', totals['evals'])
@@ -800,7 +897,8 @@ def run(chk: core.Check) -> None:
                         'For2Self', 'Quant', 'Quant2', 'Map', 'PredItem', 'PredSelf', 'Count', 'Empty', 'Exists',
                         'IndexOf', 'DistinctValues', 'ZeroOrOne', 'OneOrMore', 'ExactlyOne', 'Sum', 'SumZero', 'Avg',
                         'Min', 'Max', 'StringJoin', 'StringJoinAny', 'StringJoinTypeErr', 'Comma',
-                        'MapFocus', 'ForFocus', 'PredFocus', 'QuantFocus', 'ForDep', 'ForDep3', 'QuantDep'}
+                        'MapFocus', 'ForFocus', 'PredFocus', 'QuantFocus', 'ForDep', 'ForDep3', 'QuantDep',
+                        'NodeMap', 'NodeFor', 'NodePath'}
     if expected_actions - all_acts:
         raise tla.MachineryError(f'actions never fired (vacuous): {sorted(expected_actions - all_acts)}')
     chk.coverage['exhaustive'] = True
